@@ -332,7 +332,7 @@ fn loop_case(linter: &Linter, dialect: &str, rules: &str, fix: bool, cls: &str, 
     }
     for (positioned, ca_ok, rule) in hyps.borrow().iter() {
         buf.hyp("H_fix_anchor_positioned", "blocking", *positioned, json!({"sql":sql,"rule":rule}));
-        buf.hyp("H_create_after_anchor_end_ge_1", "blocking", *ca_ok, json!({"sql":sql,"rule":rule}));
+        buf.hyp("H_create_after_anchor_end_ge_1", "diagnostic", *ca_ok, json!({"sql":sql,"rule":rule}));
     }
     {
         let st = stats.borrow();
